@@ -131,8 +131,8 @@ def check_truthful(ctx, facts, cfg):
     for (fn, e, conds, env) in sites:
         variant = (e['path'].get('path') or '').split('::')[-1]
         # private field / parameter names of the work objects are mapped to their role names
-        fields = {f['name']: RL.norm(hcanon(f['e'], env), fn.path) for f in e['fields']}
-        atoms = [(RL.norm(c, fn.path), pol) for c, pol in core.flatten_conds(conds, env)]
+        fields = {f['name']: RL.norm(core.inline_calls(hcanon(f['e'], env), facts), fn.path) for f in e['fields']}
+        atoms = inlined_atoms(conds, env, facts, RL, fn.path)
         cmps = [x for x in (cmp_atom(c, p) for c, p in atoms) if x]
         per_fn_count[(fn.path, variant)] = per_fn_count.get((fn.path, variant), 0) + 1
         ident = '%s#%s' % (variant, per_fn_count[(fn.path, variant)])
@@ -145,6 +145,26 @@ def check_truthful(ctx, facts, cfg):
         else:
             ctx.ok(R, '%s:%s' % (fn.path, ident), {'site': e['line'], 'fields': shown,
                                                    'governing': [('' if p else 'not ') + hshow(c) for c, p in atoms][-3:]})
+
+
+def inlined_atoms(conds, env, facts, RL, fnpath):
+    """governing atoms with single-expression helper predicates inlined (and re-flattened), private names mapped to roles"""
+    out = []
+
+    def add(c, pol):
+        if isinstance(c, tuple) and c and c[0] == 'and' and pol:
+            add(c[1], True)
+            add(c[2], True)
+        elif isinstance(c, tuple) and c and c[0] == 'or' and not pol:
+            add(c[1], False)
+            add(c[2], False)
+        elif isinstance(c, tuple) and c and c[0] == 'un' and c[1] == 'Not':
+            add(c[2], not pol)
+        else:
+            out.append((RL.norm(c, fnpath), pol))
+    for c, pol in core.flatten_conds(conds, env):
+        add(core.inline_calls(c, facts), pol)
+    return out
 
 
 def lit0(c):
